@@ -272,7 +272,7 @@ func (env *SpecEnv) specEq(l, r Val, at SExpr) Term {
 		if !ok {
 			// Str vs byte slice
 			if sl, ok2 := r.(SliceV); ok2 && a.T.Sort == SStr {
-				return Eq(a.T, App("mkstr", SStr, in.regionContent(env.st, sl.Reg, env.f), sl.Off, sl.Len))
+				return Eq(a.T, in.mkStr(sl, env.st, env.f))
 			}
 			env.fail("== between %T and %T in %s", l, r, specString(at))
 		}
@@ -454,7 +454,7 @@ func (env *SpecEnv) evalIndex(x *SIndex) Val {
 
 func (env *SpecEnv) freezeKey(v Val, t types.Type) Term {
 	if sl, ok := v.(SliceV); ok && isString(t) {
-		return App("mkstr", SStr, env.in.regionContent(env.st, sl.Reg, env.f), sl.Off, sl.Len)
+		return env.in.mkStr(sl, env.st, env.f)
 	}
 	return env.in.freeze(v, t, env.st, env.f)
 }
@@ -520,7 +520,7 @@ func (env *SpecEnv) asStr(v Val) Term {
 			return b.T
 		}
 	case SliceV:
-		return App("mkstr", SStr, env.in.regionContent(env.st, b.Reg, env.f), b.Off, b.Len)
+		return env.in.mkStr(b, env.st, env.f)
 	case ArrV:
 		return App("mkstr", SStr, b.T, IntLit(0), IntLit(b.N))
 	}
@@ -561,8 +561,13 @@ func (env *SpecEnv) evalCall(x *SCall) Val {
 	case *SIdent:
 		name = fn.Name
 	case *SSel:
-		if id, ok := fn.X.(*SIdent); ok {
-			name = id.Name + "." + fn.Name
+		switch b := fn.X.(type) {
+		case *SIdent:
+			name = b.Name + "." + fn.Name
+		case *SSel:
+			if id, ok := b.X.(*SIdent); ok {
+				name = id.Name + "." + b.Name + "." + fn.Name
+			}
 		}
 	}
 	argn := func(n int) {
@@ -627,6 +632,9 @@ func (env *SpecEnv) evalCall(x *SCall) Val {
 			return Sc{Select(mm.T, env.eval(x.Args[1]).(Sc).T)}
 		}
 		env.fail("has() on %T", m)
+	case "hasprefix":
+		argn(2)
+		return Sc{in.hasPrefixUF(env.asStr(env.eval(x.Args[0])), env.asStr(env.eval(x.Args[1])))}
 	case "str":
 		argn(1)
 		return Sc{env.asStr(env.eval(x.Args[0]))}
@@ -646,7 +654,45 @@ func (env *SpecEnv) evalCall(x *SCall) Val {
 	if sf := in.W.specFunc(env.pkgPath, name); sf != nil {
 		return env.callSpecFunc(sf, x)
 	}
-	// pure Go function with contract: usable as uninterpreted function
+	// pure Go function / method with a `pure` contract: T.M(recv, args...) or F(args...)
+	if c := in.W.pureContract(env.pkgPath, name); c != nil {
+		fn := in.W.funcObj(c)
+		if fn == nil {
+			env.fail("cannot resolve pure function %s", name)
+		}
+		var args []Val
+		for _, a := range x.Args {
+			args = append(args, env.eval(a))
+		}
+		var recv Val
+		if fn.Type().(*types.Signature).Recv() != nil {
+			if len(args) == 0 {
+				env.fail("%s needs a receiver argument", name)
+			}
+			recv, args = args[0], args[1:]
+		}
+		fr := env.f
+		if fr == nil {
+			fr = &Frame{in: in}
+		}
+		vs := fr.pureApply(c, fn, recv, args, env.st)
+		if len(vs) == 1 {
+			return vs[0]
+		}
+		return TupleV{vs}
+	}
+	switch name {
+	case "fst", "snd":
+		argn(1)
+		tv, ok := env.eval(x.Args[0]).(TupleV)
+		if !ok || len(tv.Vs) < 2 {
+			env.fail("%s of non-tuple", name)
+		}
+		if name == "fst" {
+			return tv.Vs[0]
+		}
+		return tv.Vs[1]
+	}
 	env.fail("unknown spec function %q", name)
 	return nil
 }
@@ -659,6 +705,9 @@ func (env *SpecEnv) callSpecFunc(sf *SpecFunc, x *SCall) Val {
 	args := make([]Val, len(x.Args))
 	for i, a := range x.Args {
 		args[i] = env.eval(a)
+	}
+	if sf.Body != nil && sf.Opaque {
+		return env.callOpaqueSpecFunc(sf, args)
 	}
 	if sf.Body != nil {
 		// macro expansion in a clean environment (no access to caller's variables)
@@ -760,4 +809,67 @@ func (env *SpecEnv) evalQuant(x *SQuant) Val {
 		return Sc{Forall(vars, Implies(And(guards...), body))}
 	}
 	return Sc{Exists(vars, And(append(guards, body)...))}
+}
+
+// argTerm converts a spec value into the single term passed to an opaque spec function.
+func (env *SpecEnv) argTerm(v Val, typ string) Term {
+	switch b := v.(type) {
+	case Sc:
+		return b.T
+	case ArrV:
+		return b.T
+	case SliceV:
+		if typ == "[]byte" || typ == "string" || typ == "bytes" {
+			return env.asStr(v)
+		}
+		if !(b.Off.IsLit() && b.Off.lit.Sign() == 0) {
+			env.fail("slice argument with non-zero offset passed to opaque spec function")
+		}
+		return env.in.regionContent(env.st, b.Reg, env.f)
+	}
+	env.fail("cannot pass %T as %s to an opaque spec function", v, typ)
+	return Term{}
+}
+
+// callOpaqueSpecFunc: the function is a declared symbol with axiom forall args. f(args) = body.
+func (env *SpecEnv) callOpaqueSpecFunc(sf *SpecFunc, args []Val) Val {
+	in := env.in
+	var ts []Term
+	for i, a := range args {
+		ts = append(ts, env.argTerm(a, sf.Params[i].Type))
+	}
+	fn := "sf_" + sanitize(sf.Pkg) + "_" + sf.Name
+	key := "opaque:" + fn
+	rs := env.sortOfName(sf.Result)
+	if !in.D.seen[key] {
+		in.D.seen[key] = true
+		var vars []Term
+		var sorts []string
+		sub := &SpecEnv{in: in, f: nil, st: &State{store: map[*Cell]Val{}, ghost: map[string]Val{}}, vars: map[string]Val{}, pkgPath: sf.Pkg, depth: env.depth + 1}
+		for i, p := range sf.Params {
+			v := Term{S: fmt.Sprintf("p%d!%s", i, sanitize(p.Name)), Sort: ts[i].Sort}
+			vars = append(vars, v)
+			sorts = append(sorts, v.Sort)
+			if strings.HasPrefix(v.Sort, "(Array Int ") {
+				sub.vars[p.Name] = ArrV{T: v}
+			} else {
+				sub.vars[p.Name] = Sc{v}
+			}
+		}
+		// declare first so that recursive definitions are possible
+		in.D.lines = append(in.D.lines, fmt.Sprintf("(declare-fun %s (%s) %s)", fn, strings.Join(sorts, " "), rs))
+		body := sub.eval(sf.Body)
+		var bt Term
+		switch b := body.(type) {
+		case Sc:
+			bt = b.T
+		case ArrV:
+			bt = b.T
+		default:
+			env.fail("opaque spec function %s: body is %T", sf.Name, body)
+		}
+		app := App(fn, rs, vars...)
+		in.D.lines = append(in.D.lines, fmt.Sprintf("(assert %s)", Forall(vars, Eq(app, bt), []Term{app}).S))
+	}
+	return env.thawSort(App(fn, rs, ts...))
 }
